@@ -224,6 +224,32 @@ def one_configuration(ctx, env, config, part, parts, label=None, products=None):
                 ctx.count("table_cells")
                 roundtrip_unit(x, f"({pname or ''}*{uname})**{e}", nontrivial=bool(pname) or e != 1)
     ctx.cov["exhaustive_table_per_configuration"] = True
+    # ---- prefixes the program registers itself (lakh, crore, dozen ...), with symbols of one to five characters: from
+    # then on they are registered prefixes like any other, on every unit, at every exponent
+    own = []
+    for pname, psym, base, exponent in (("zqlakh", "lkh", 10, 5), ("zqcrore", "cror", 10, 7), ("zqgross", "grs", 12, 2), ("zqmyria", "my", 10, 4),
+                                       ("zqhalfk", "hlfKi", 2, 9), ("zqwan", "wan", 10, -4)):
+        try:
+            own.append((pname, m.Prefix._by_name[pname] if pname in m.Prefix._by_name else m.Prefix(base, exponent, pname, psym)))
+        except ValueError:
+            ctx.count("own_prefix_declarations_refused")   # another (base, exponent) owner in this configuration
+    some_units = [x for i, x in enumerate(units) if i % parts == part][: (40 if ctx.tier == "quick" else 400)]
+    for uname, u in some_units + [(n, pools.units[n]) for n in ("meter", "second", "gram", "bit") if n in pools.units]:
+        if not u.symbols or not u.symbols[0].isalpha():
+            continue
+        for pname, p in own:
+            for e in (1, 2, -1, 3):
+                ctx.count("table_cells_with_a_prefix_of_the_programs_own")
+                x = (p * u) ** e
+                roundtrip_unit(x, f"({pname}*{uname})**{e}")
+                try:
+                    q2 = Q.parse(str(Q(3, x)))
+                    a_, b_ = orc.si_value(3, x), orc.si_value(q2.magnitude, q2.unit)
+                    ma, mb = (a_[0] + a_[1]) / 2, (b_[0] + b_[1]) / 2
+                    if mdl.dim_of_unit(q2.unit) != mdl.dim_of_unit(x) or a_[2] != b_[2] or abs(ma - mb) > max(abs(ma), abs(mb)) * R9:
+                        ctx.violation(classify_failure(x, str(x), parsed_to=q2.unit), f"str(3 * ({pname}*{uname})**{e}) = {str(Q(3, x))!r} parses to {q2!r}", {"unit": f"({pname}*{uname})**{e}"})
+                except (ParseError, KeyError) as ex:
+                    ctx.violation(classify_failure(x, str(x)), f"str(3 * ({pname}*{uname})**{e}) = {str(Q(3, x))!r} does not parse: {type(ex).__name__}", {"unit": f"({pname}*{uname})**{e}"})
 
     # ---- random products, quantities, spellings ---------------------------------------------------
     n = products if products is not None else ctx.scale(3000, 300_000)
